@@ -8,6 +8,8 @@ import EgVerif.Proofs.AdminUnderMutex
 import EgVerif.Proofs.AdminUnderMutexLease
 import EgVerif.Proofs.ClusterMutexFail
 import EgVerif.Proofs.AdminAPIComplete
+import EgVerif.Proofs.AdminAPIRealTime
+import EgVerif.Proofs.AdminAPIRejected
 /-!
 # C18 — the cluster mutex is exclusive; admin mutations serialize with gap-free versions
 
@@ -833,7 +835,8 @@ open EgVerif.AdminUnderMutex in
 /-- **… hence every history of the real lock protocol with the handlers is accepted**: the log of any product run
 (`Proofs/AdminUnderMutex.lean`), observed in unlock order once nobody is inside, passes those five checks — the api
 judge's executable spec and the theorems are connected in both directions (`checkHistory_sound` ⇐, this ⇒).
-`realTime`, `rejectedJustified` and `readsJustified` stay executable checks only, in both directions. -/
+`realTime` and `rejectedJustified` are added below (`model_history_accepted_all`); `readsJustified` stays an
+executable check only (the model's observation has no unlocked reads). -/
 theorem model_history_accepted {c : Cfg} (h1 : OneObjectPerSession c) (e0 : Etcd) (as : List PAct) (p : PState)
     (h : AdminUnderMutex.run c (PState.init e0) as = some p) (hfree : ∀ t, p.mx.pc t ≠ .crit) (fs : Store)
     (hfs : storeEq p.etcd.store fs = true) :
@@ -846,6 +849,62 @@ theorem model_history_accepted {c : Cfg} (h1 : OneObjectPerSession c) (e0 : Etcd
 
 example : (checkHistory apply ⟨[], 7⟩ (obsSeq ⟨[], 7⟩ 0 [.create "a" oA, .create "a" oB, .update "a" ⟨"A", "p9"⟩, .delete "b"])
     [("a", ⟨"A", "p9"⟩)] 9).all = true := by decide
+
+/-- **(b') the real-time clause is complete too**: the observation of any sequential execution (request `j` stamped
+`(2j+1, 2j+2)`, whatever final listing and version are compared) passes `realTime` — "version order never
+contradicts real time" cannot alarm on a history the model produces. -/
+theorem checkHistory_complete_realTime (e0 : Etcd) (rs : List Req) (fs : Store) (fv : Nat) :
+    (checkHistory apply e0 (obsSeq e0 0 rs) fs fv).realTime = true :=
+  AdminAPI.checkHistory_complete_realTime e0 rs fs fv
+
+open EgVerif.AdminUnderMutex in
+/-- … hence for every history of the real lock protocol with the handlers (as `model_history_accepted`). -/
+theorem model_history_accepted_realTime {c : Cfg} (e0 : Etcd) (as : List PAct) (p : PState)
+    (_h : AdminUnderMutex.run c (PState.init e0) as = some p) (fs : Store) :
+    (checkHistory apply e0 (obsSeq e0 0 (p.log.map Prod.fst)) fs p.etcd.version).realTime = true :=
+  AdminAPI.checkHistory_complete_realTime e0 _ fs _
+
+/-- **(b'') the rejected-mutation clause is complete**: every 409 / 404 / 400 of a sequential observation is
+justified by the judge — at the position "number of successes before it", which lies inside the operation's
+real-time window and whose replayed state is the state the request really saw. -/
+theorem checkHistory_complete_rejected (e0 : Etcd) (rs : List Req) (fs : Store) (fv : Nat) :
+    (checkHistory apply e0 (obsSeq e0 0 rs) fs fv).rejectedJustified = true :=
+  AdminAPI.checkHistory_complete_rejected e0 rs fs fv
+
+/-- **(b''') the judge accepts every sequential model history of mutations in all eight fields** (`HistCheck.all`;
+`obsSeq` observes mutations only, so `readsJustified` has nothing to check there and stays an executable check for
+histories with unlocked reads). -/
+theorem checkHistory_complete_all (e0 : Etcd) (rs : List Req) (fs : Store)
+    (hfs : storeEq (runSeq e0 rs).1.store fs = true) :
+    (checkHistory apply e0 (obsSeq e0 0 rs) fs (runSeq e0 rs).1.version).all = true :=
+  AdminAPI.checkHistory_complete_all e0 rs fs hfs
+
+open EgVerif.AdminUnderMutex in
+/-- … hence the api judge raises no alarm on any history of the real lock protocol with the handlers, observed in
+unlock order once nobody is inside (all fields; strengthens `model_history_accepted`). -/
+theorem model_history_accepted_all {c : Cfg} (h1 : OneObjectPerSession c) (e0 : Etcd) (as : List PAct) (p : PState)
+    (h : AdminUnderMutex.run c (PState.init e0) as = some p) (hfree : ∀ t, p.mx.pc t ≠ .crit) (fs : Store)
+    (hfs : storeEq p.etcd.store fs = true) :
+    (checkHistory apply e0 (obsSeq e0 0 (p.log.map Prod.fst)) fs p.etcd.version).all = true := by
+  obtain ⟨_, _, hst⟩ := admin_mutations_serialized_under_mutex h1 e0 as p h
+  have he := hst hfree
+  rw [he] at hfs ⊢
+  exact AdminAPI.checkHistory_complete_all e0 _ fs hfs
+
+/-- the rejected clause is not trivially true: a 409 for a name that never existed is not justified -/
+example : (checkHistory apply ⟨[], 7⟩
+    [⟨.mut (.create "a" oA), 201, some 8, 1, 2⟩, ⟨.mut (.create "b" oB), 409, none, 3, 4⟩]
+    [("a", oA)] 8).rejectedJustified = false := by decide
+/-- … and neither is a 409 whose only justifying state lies outside its real-time window (the conflicting create
+started after the rejected one had ended) -/
+example : (checkHistory apply ⟨[], 7⟩
+    [⟨.mut (.create "a" oA), 409, none, 1, 2⟩, ⟨.mut (.create "a" oA), 201, some 8, 3, 4⟩]
+    [("a", oA)] 8).rejectedJustified = false := by decide
+
+/-- the clause is not trivially true: swapping the stamps of two successes makes it fail -/
+example : (checkHistory apply ⟨[], 7⟩
+    [⟨.mut (.create "a" oA), 201, some 8, 5, 6⟩, ⟨.mut (.create "b" oB), 201, some 9, 1, 2⟩]
+    [("a", oA), ("b", oB)] 9).realTime = false := by decide
 
 open EgVerif.AdminUnderMutex in
 /-- **(c) Lease expiry**: for every history of the product with arbitrary lease expiries *except while a goroutine
